@@ -133,6 +133,16 @@ func Main(o Options) int {
 		for _, f := range prog.Forwarded {
 			fmt.Println("FORWARDED", f)
 		}
+		if want := os.Getenv("CRSVERIF_FN"); want != "" {
+			for _, f := range prog.RepoFns {
+				if strings.Contains(f.String(), want) {
+					fmt.Println("FN", f.String(), len(f.Blocks))
+				}
+			}
+			for k := range overlay {
+				fmt.Println("OVERLAY", k)
+			}
+		}
 	}
 	ctx := rules.NewCtx(prog)
 	{
